@@ -14,7 +14,7 @@ fn vk_tr_scalar() {
         Some(p) => {
             let want = (x - p).abs();
             assert!(out.to_bits() == want.to_bits() || (out.is_nan() && want.is_nan()));
-            if !x.is_nan() && !p.is_nan() && !(x.is_infinite() && p.is_infinite()) { assert!(out >= 0.0); }
+            if !out.is_nan() { assert!(out >= 0.0); }
             if x == p && x.is_finite() { assert!(out == 0.0); }
         }
     }
@@ -25,26 +25,50 @@ impl High for VkBar { fn high(&self) -> f64 { self.h } }
 impl Low for VkBar { fn low(&self) -> f64 { self.l } }
 impl Close for VkBar { fn close(&self) -> f64 { self.c } }
 
-// @harness vk_tr_bar props=C02,C08,C09 kind=complete tier=quick
-// bar path, bit-precise: max(h-l, |h-pc|, |l-pc|) / h-l first; >= 0 for low <= high; 0 on a flat bar at the previous close
+// @harness vk_tr_bar_first props=C02,C09 kind=complete tier=quick
+// first bar: high - low bit-exactly, prev_close := close
 #[kani::proof]
-fn vk_tr_bar() {
-    let prev = vk_prev();
-    let mut tr = TrueRange { prev_close: prev };
+fn vk_tr_bar_first() {
+    let mut tr = TrueRange { prev_close: None };
     let bar = VkBar { h: kani::any(), l: kani::any(), c: kani::any() };
-    kani::assume(bar.h.is_finite() && bar.l.is_finite());
     let out = tr.next(&bar);
     assert!(tr.prev_close.map(|p| p.to_bits()) == Some(bar.c.to_bits()));
-    match prev {
-        None => assert!(out.to_bits() == (bar.h - bar.l).to_bits()),
-        Some(p) => {
-            kani::assume(p.is_finite());
-            let (d1, d2, d3) = (bar.h - bar.l, (bar.h - p).abs(), (bar.l - p).abs());
-            assert!(out == d1 || out == d2 || out == d3);
-            assert!(out >= d1 && out >= d2 && out >= d3);
-            if bar.l <= bar.h { assert!(out >= 0.0); }
-            if bar.l == bar.h && bar.h == p { assert!(out == 0.0); }
-        }
-    }
-    if prev.is_none() && bar.l <= bar.h { assert!(out >= 0.0); }
+    let want = bar.h - bar.l;
+    assert!(out.to_bits() == want.to_bits() || (out.is_nan() && want.is_nan()));
+    if bar.l <= bar.h && bar.h.is_finite() && bar.l.is_finite() { assert!(out >= 0.0); }
+}
+
+// @harness vk_tr_bar_next props=C02,C08,C09,C10 kind=complete tier=thorough
+// later bars (finite values): the result is one of h-l, |h-pc|, |l-pc| and none of them exceeds it; >= 0 for low <= high;
+// exactly 0 on a flat bar at the previous close; a one-price bar gives |x - pc| like the scalar path
+#[kani::proof]
+fn vk_tr_bar_next() {
+    let p: f64 = kani::any();
+    let mut tr = TrueRange { prev_close: Some(p) };
+    let bar = VkBar { h: kani::any(), l: kani::any(), c: kani::any() };
+    kani::assume(bar.h.is_finite() && bar.l.is_finite() && p.is_finite());
+    let out = tr.next(&bar);
+    assert!(tr.prev_close.map(|q| q.to_bits()) == Some(bar.c.to_bits()));
+    let (d1, d2, d3) = (bar.h - bar.l, (bar.h - p).abs(), (bar.l - p).abs());
+    assert!(out == d1 || out == d2 || out == d3);
+    assert!(out >= d1 && out >= d2 && out >= d3);
+    if bar.l <= bar.h { assert!(out >= 0.0); }
+    if bar.l == bar.h && bar.h == p { assert!(out == 0.0); }
+    if bar.l == bar.h { assert!(out == (bar.h - p).abs()); }
+}
+
+// @harness vk_tr_one_price_bar props=C08,C10 kind=complete tier=quick
+// a one-price bar (high = low = x) gives exactly |x - previous close| like the scalar path, and exactly 0 at the previous close
+#[kani::proof]
+fn vk_tr_one_price_bar() {
+    let p: f64 = kani::any();
+    let x: f64 = kani::any();
+    kani::assume(p.is_finite() && x.is_finite());
+    let mut tr = TrueRange { prev_close: Some(p) };
+    let mut ts = TrueRange { prev_close: Some(p) };
+    let bar = VkBar { h: x, l: x, c: x };
+    let out = tr.next(&bar);
+    let outs = ts.next(x);
+    assert!(out == outs);
+    if x == p { assert!(out == 0.0); }
 }
